@@ -211,7 +211,10 @@ func saveState(lastMessages map[string]interface{}) {
 		return
 	}
 	verifPoint("saveState:bak-removed")
-	err = os.Rename(mainname, bakname)
+	// Keep the old file reachable as the backup WITHOUT ever taking it away from its own
+	// name (a hard link, not a rename): the rename below then replaces it atomically, so a
+	// crash at any point leaves either the complete old or the complete new configuration.
+	err = os.Link(mainname, bakname)
 	if err != nil && !os.IsNotExist(err) {
 		log.Println("Could not save backup file: ", err)
 		return
